@@ -15,6 +15,8 @@ import (
 	"encoding/json"
 	"fmt"
 	"io"
+	"net"
+	"net/http"
 	"os"
 	"runtime"
 	"sort"
@@ -23,7 +25,9 @@ import (
 	"testing"
 	"time"
 
+	"github.com/cbeuw/Cloak/internal/common"
 	kit "github.com/cbeuw/Cloak/internal/verifkit"
+	"github.com/gorilla/websocket"
 	log "github.com/sirupsen/logrus"
 )
 
@@ -780,6 +784,305 @@ func TestVerifC11Replay(t *testing.T) {
 	}
 	wg.Wait()
 	res.Stat("jobs", int64(len(work)))
+	c11ConnStage(res)
+}
+
+// ---------------------------------------------------------------- garbage through a real connection (deplex)
+
+// c11Link is one underlying connection of a live Session: the session end was handed to AddConnection (so
+// switchboard.deplex reads it), the peer end is what the adversary / the remote writes to.
+type c11Link struct {
+	transport string
+	send      func(msg []byte) error  // one message (pipe: one Write; tls: one record body; ws: one binary message)
+	raw       func(kind string) error // transport-specific oddities (empty record, text / ping / empty binary message)
+	rawKinds  []string
+	close     func()
+}
+
+func c11PipeLink(s *Session) (*c11Link, error) {
+	cli, srv := net.Pipe()
+	s.AddConnection(srv)
+	w := func(b []byte) error {
+		cli.SetWriteDeadline(time.Now().Add(10 * time.Second))
+		_, err := cli.Write(b)
+		return err
+	}
+	return &c11Link{transport: "pipe", send: w, close: func() { cli.Close() }}, nil
+}
+
+func c11TLSLink(s *Session) (*c11Link, error) {
+	cli, srv := net.Pipe()
+	s.AddConnection(common.NewTLSConn(srv))
+	tc := common.NewTLSConn(cli)
+	l := &c11Link{transport: "tls", close: func() { cli.Close() }, rawKinds: []string{"empty-record", "empty-handshake-record"}}
+	l.send = func(b []byte) error {
+		cli.SetWriteDeadline(time.Now().Add(10 * time.Second))
+		_, err := tc.Write(b)
+		return err
+	}
+	l.raw = func(kind string) error {
+		cli.SetWriteDeadline(time.Now().Add(10 * time.Second))
+		typ := byte(0x17)
+		if kind == "empty-handshake-record" {
+			typ = 0x16
+		}
+		_, err := cli.Write([]byte{typ, 3, 3, 0, 0})
+		return err
+	}
+	return l, nil
+}
+
+func c11WSLink(s *Session) (*c11Link, error) {
+	ln, err := net.Listen("tcp", "127.0.0.1:0")
+	if err != nil {
+		return nil, err
+	}
+	got := make(chan *websocket.Conn, 1)
+	srv := &http.Server{Handler: http.HandlerFunc(func(w http.ResponseWriter, r *http.Request) {
+		up := websocket.Upgrader{ReadBufferSize: 16480, WriteBufferSize: 16480}
+		c, err := up.Upgrade(w, r, nil)
+		if err != nil {
+			got <- nil
+			return
+		}
+		got <- c
+	})}
+	go srv.Serve(ln)
+	cli, _, err := (&websocket.Dialer{HandshakeTimeout: 10 * time.Second}).Dial("ws://"+ln.Addr().String()+"/", nil)
+	if err != nil {
+		srv.Close()
+		return nil, err
+	}
+	sc := <-got
+	if sc == nil {
+		srv.Close()
+		return nil, fmt.Errorf("websocket upgrade failed")
+	}
+	s.AddConnection(&common.WebSocketConn{Conn: sc})
+	go func() { // the peer must read so that pongs / close frames do not pile up
+		for {
+			if _, _, err := cli.NextReader(); err != nil {
+				return
+			}
+		}
+	}()
+	var mu sync.Mutex
+	wr := func(t int, b []byte) error {
+		mu.Lock()
+		defer mu.Unlock()
+		cli.SetWriteDeadline(time.Now().Add(10 * time.Second))
+		return cli.WriteMessage(t, b)
+	}
+	l := &c11Link{transport: "ws", rawKinds: []string{"text-message", "empty-text-message", "empty-binary-message", "ping", "pong"},
+		close: func() { cli.Close(); srv.Close() }}
+	l.send = func(b []byte) error { return wr(websocket.BinaryMessage, b) }
+	l.raw = func(kind string) error {
+		switch kind {
+		case "text-message":
+			return wr(websocket.TextMessage, []byte("hello from a middlebox"))
+		case "empty-text-message":
+			return wr(websocket.TextMessage, nil)
+		case "empty-binary-message":
+			return wr(websocket.BinaryMessage, nil)
+		case "ping":
+			return wr(websocket.PingMessage, []byte("p"))
+		}
+		return wr(websocket.PongMessage, nil)
+	}
+	return l, nil
+}
+
+type c11ConnItem struct {
+	Kind string `json:"kind"` // garbage | raw:<kind> | tampered
+	Len  int    `json:"len"`
+	Hex  string `json:"hex,omitempty"`
+}
+
+// c11ConnStage delivers the garbage classes through real connection objects into a live Session (AddConnection ->
+// switchboard.deplex -> recvDataFromRemote). After EVERY item a valid frame sent on the same connection must be
+// readable on its stream and the session must still be open.
+func c11ConnStage(res *kit.Result) {
+	rng := kit.NewRng(kit.Seed()*131 + 7)
+	lengths := []int{}
+	for n := 0; n <= 30; n++ {
+		lengths = append(lengths, n)
+	}
+	lengths = append(lengths, 100, 1000, 16401)
+	extra := 12
+	if kit.Thorough() {
+		for n := 31; n <= 300; n++ {
+			lengths = append(lengths, n)
+		}
+		extra = 300
+	}
+	for i := 0; i < extra; i++ {
+		lengths = append(lengths, 31+rng.Intn(16401-31))
+	}
+	links := map[string]func(*Session) (*c11Link, error){"pipe": c11PipeLink, "tls": c11TLSLink, "ws": c11WSLink}
+	for method := byte(0); method < 4; method++ {
+		mname := c11MethodNames[method]
+		for _, tr := range []string{"pipe", "tls", "ws"} {
+			var key [32]byte
+			copy(key[:], rng.Bytes(32))
+			o, err := MakeObfuscator(method, key)
+			if err != nil {
+				res.Note("conn stage: %v", err)
+				continue
+			}
+			var sesh *Session
+			var link *c11Link
+			var stream *Stream
+			seq := uint64(0)
+			broken := 0
+			vkey := "session-broken:conn-" + tr
+			// (re)builds session + connection and opens stream 1 with a first valid frame
+			setup := func() bool {
+				if link != nil {
+					link.close()
+				}
+				sesh = c11NewSession(o)
+				link, err = links[tr](sesh)
+				if err != nil {
+					res.Note("conn stage: transport %s not available: %v", tr, err)
+					res.Stat("conn-transport-unavailable:"+tr, 1)
+					return false
+				}
+				seq = 0
+				stream = nil
+				return true
+			}
+			// sends a valid frame on stream 1 and reads it back; "" = fine
+			valid := func() string {
+				payload := kit.TokenBytes(seq+1000, 40)
+				msg, err := c11Seal(method, key, 1, seq, closingNothing, payload, -1)
+				if err != nil {
+					return "" // cannot encode: C04's business
+				}
+				seq++
+				if err := link.send(msg); err != nil {
+					return fmt.Sprintf("writing a valid frame to the connection fails: %v", err)
+				}
+				if stream == nil {
+					select {
+					case st := <-sesh.acceptCh:
+						if st == nil {
+							return "the session's accept queue is closed"
+						}
+						for st.id != 1 { // plain: junk streams opened by unauthenticated garbage
+							select {
+							case st = <-sesh.acceptCh:
+								if st == nil {
+									return "the session's accept queue is closed"
+								}
+							case <-time.After(10 * time.Second):
+								return "the valid frame did not open its stream"
+							}
+						}
+						stream = st
+					case <-time.After(10 * time.Second):
+						return fmt.Sprintf("the valid frame did not open its stream (session closed=%v)", sesh.IsClosed())
+					}
+				}
+				stream.SetReadDeadline(time.Now().Add(10 * time.Second))
+				got := make([]byte, len(payload))
+				n, err := io.ReadFull(stream, got)
+				if err != nil || !bytes.Equal(got, payload) {
+					return fmt.Sprintf("the valid frame is not delivered to the reader of its stream: %d bytes, %v (session closed=%v, terminal msg %q)", n, err, sesh.IsClosed(), sesh.TerminalMsg())
+				}
+				if sesh.IsClosed() {
+					return "the session is closed: " + sesh.TerminalMsg()
+				}
+				return ""
+			}
+			if !setup() {
+				continue
+			}
+			if w := valid(); w != "" {
+				res.Violate("valid-frame-rejected:conn-"+tr, mname+": a valid frame through a fresh connection: "+w, nil)
+				link.close()
+				continue
+			}
+			item := func(it c11ConnItem, deliver func() error, decides bool) {
+				if broken >= 5 {
+					return
+				}
+				res.Count(fmt.Sprintf("conn|%s|%s|%s|%d", mname, tr, it.Kind, it.Len), true)
+				res.Stat("conn-items:"+tr, 1)
+				for len(sesh.acceptCh) > 0 && stream != nil { // plain: junk streams
+					<-sesh.acceptCh
+				}
+				err := deliver()
+				w := ""
+				if err != nil {
+					w = fmt.Sprintf("writing the item fails: %v", err)
+				} else {
+					w = valid()
+				}
+				if w == "" {
+					return
+				}
+				if !decides { // plain and a full-size "frame": unauthenticated junk may legitimately close things
+					res.Stat("conn-plain-junk-effect", 1)
+				} else {
+					broken++
+					res.Violate(vkey, fmt.Sprintf("%s over %s: after %s of %d bytes %s", mname, tr, it.Kind, it.Len, w),
+						map[string]any{"conn": true, "method": method, "transport": tr, "item": it})
+				}
+				setup()
+				valid()
+			}
+			minLen := frameHeaderLength + salsa20NonceSize
+			for li, n := range lengths {
+				if tr == "ws" && n > 16000 {
+					n = 16000
+				}
+				var data []byte
+				switch li % 3 {
+				case 0, 1:
+					data = rng.Bytes(n)
+				case 2:
+					data = make([]byte, n)
+				}
+				it := c11ConnItem{Kind: "garbage", Len: n}
+				if n <= 64 {
+					it.Hex = hex.EncodeToString(data)
+				}
+				d := data
+				item(it, func() error { return link.send(d) }, method != EncryptionMethodPlain || n < minLen)
+			}
+			for _, k := range link.rawKinds {
+				k := k
+				item(c11ConnItem{Kind: "raw:" + k}, func() error { return link.raw(k) }, true)
+			}
+			if method != EncryptionMethodPlain { // tampered valid frames (not the unauthenticated header tail: known finding D3)
+				for i := 0; i < 24; i++ {
+					msg, err := c11Seal(method, key, 1, seq, closingNothing, kit.TokenBytes(7, 40), -1)
+					if err != nil {
+						break
+					}
+					pos := rng.Intn(len(msg))
+					if i < 12 {
+						pos = i
+					} else if pos == 12 || pos == 13 {
+						pos = 14
+					}
+					msg[pos] ^= 1 << rng.Intn(8)
+					m := msg
+					item(c11ConnItem{Kind: fmt.Sprintf("tampered(byte %d)", pos), Len: len(m), Hex: hex.EncodeToString(m)}, func() error { return link.send(m) }, true)
+				}
+			}
+			link.close()
+		}
+	}
+}
+
+// TestVerifC11Conn runs only the connection-path stage.
+func TestVerifC11Conn(t *testing.T) {
+	log.SetOutput(io.Discard)
+	log.StandardLogger().ExitFunc = func(int) {}
+	res := kit.NewResult()
+	defer func() { res.Save(true) }()
+	c11ConnStage(res)
 }
 
 func c11ReplayFile(t *testing.T, path string) {
@@ -794,6 +1097,17 @@ func c11ReplayFile(t *testing.T, path string) {
 	}
 	if err := json.Unmarshal(raw, &rf); err != nil {
 		t.Fatal(err)
+	}
+	if strings.Contains(string(raw), `"conn": true`) || strings.Contains(string(raw), `"conn":true`) {
+		// connection-path finding: re-run the stage (goroutine schedules are not replayable byte for byte)
+		res := kit.NewResult()
+		c11ConnStage(res)
+		res.Save(false)
+		for _, v := range res.Violations {
+			fmt.Printf("key=%q what=%q\n", v.Key, v.What)
+		}
+		fmt.Printf("REPLAY-RESULT key=%q violations=%d\n", rf.Key, res.NumViolations())
+		return
 	}
 	r := rf.Replay
 	j := &c11Job{res: kit.NewResult(), method: byte(r.Method), mname: c11MethodNames[byte(r.Method)]}
